@@ -311,7 +311,7 @@ def _judge(ctx, items, cfg="EqSolveTrace.cfg"):
 
 def _plan(ctx, cases):
     """stratified choice of problems and the chains each is run under"""
-    n = 150 if ctx.quick else 2200
+    n = 140 if ctx.quick else 1800
     sel = ctx.pick(cases, n)
     jobs = []
     for c in sel:
